@@ -37,7 +37,7 @@ API, less-travelled functions around the anchors, the library's use of its
 dependencies' contracts, and behaviour keyed on the dynamic type, shape or
 magnitude of what the caller passes, and the idioms of the package's own
 README, doc comments and example server; 5, 6, 5, 9, 4, 2, 3, 8, 14 and 2
-(of 48: one sub-agent of wave 19 failed) were missed on first contact, the others were caught by the checks as they stood - many of the
+(the sub-agent of one property had to be started twice) were missed on first contact, the others were caught by the checks as they stood - many of the
 later proposals repeat earlier ones, which is itself a sign of saturation, and
 the themes of waves 17 and 18 (what io, bufio, bytes, net/http,
 compress/flate, the pools and context promise and do not promise; fast paths
